@@ -110,6 +110,8 @@ var faultKinds = []faultKind{
 	{name: "panicking-function-error-value", num: "boome()", stmt: "boome()"},
 	{name: "missing-method", num: "Obj.NoSuch()", stmt: "Obj.NoSuch(1)"},
 	{name: "missing-function", num: "nosuchfn(1)", stmt: "nosuchfn(1)"},
+	{name: "call-of-injected-data-as-function", num: "Num()", stmt: "Obj()"},
+	{name: "three-level-call-on-a-local-number", num: "ln3.a.b(1)", stmt: "ln3.a.b(1)", pre: "ln3 = 5"},
 	{name: "too-few-arguments", num: "two(1)", stmt: "two(1)"},
 	{name: "too-many-arguments", num: "two(1, 2, 3)", stmt: "two(1, 2, 3)"},
 	{name: "ill-typed-arguments", num: "two(\"a\", \"b\")", stmt: "Obj.Two(\"a\", true)"},
